@@ -49,6 +49,9 @@ pub enum Op {
     Features { mask: u64 },
     BackendReq { reply_ack: bool, shared_object: bool, shmem: bool },
     Call { r: u8, some: bool },
+    /// SET_VRING_KICK with / without a descriptor: starts the ring ("arbitrary message orders": a ring may be
+    /// started before it is sized, based or addressed, and re-addressed while running)
+    Kick { r: u8, some: bool },
     AddUsed { r: u8, idx: u16, len: u32 },
 }
 
@@ -90,6 +93,7 @@ fn run_generic<V: VringT<GM> + Clone + Send + Sync + 'static>(ctx: &mut Ctx, h: 
     let mut rings: Vec<Ring> = (0..NRINGS).map(|_| Ring { size: MAXQ, ..Default::default() }).collect();
     let mut event_idx = false;
     let mut calls: Vec<EventFd> = Vec::new();
+    let mut kicks: Vec<EventFd> = Vec::new();
     let mut nt = false;
     let mut acked_feat_n = 0usize;
 
@@ -354,6 +358,27 @@ fn run_generic<V: VringT<GM> + Clone + Send + Sync + 'static>(ctx: &mut Ctx, h: 
                     }
                 }
             }
+            Op::Kick { r, some } => {
+                let ok = if *some {
+                    let e = new_eventfd();
+                    let ok = s.acked(fe::SET_VRING_KICK, &spec::b_u64(*r as u64), &[e.as_raw_fd()])?;
+                    kicks.push(e);
+                    ok
+                } else {
+                    s.acked(fe::SET_VRING_KICK, &spec::b_u64(*r as u64 | 0x100), &[])?
+                };
+                if (*r as usize) < NRINGS {
+                    if !ok {
+                        return Err(format!("{desc}: refused"));
+                    }
+                    ctx.class("ring_started_by_kick");
+                } else {
+                    ctx.class("index_out_of_range");
+                    if ok {
+                        return Err(format!("{desc}: ring index {r} is out of range but the message was accepted"));
+                    }
+                }
+            }
             Op::AddUsed { r, idx, len } => {
                 let r = (*r as usize) % NRINGS;
                 let (idx, len) = (*idx, *len);
@@ -530,6 +555,7 @@ fn op_strategy() -> impl Strategy<Value = Op> {
         3 => mask.prop_map(|mask| Op::Features { mask }),
         1 => (any::<bool>(), any::<bool>(), any::<bool>()).prop_map(|(reply_ack, shared_object, shmem)| Op::BackendReq { reply_ack, shared_object, shmem }),
         3 => (ring_strategy(), any::<bool>()).prop_map(|(r, some)| Op::Call { r, some }),
+        2 => (ring_strategy(), prop_oneof![4 => Just(true), 1 => Just(false)]).prop_map(|(r, some)| Op::Kick { r, some }),
         4 => (0u8..3, prop_oneof![3 => 0u16..8, 1 => any::<u16>()], any::<u32>()).prop_map(|(r, idx, len)| Op::AddUsed { r, idx, len }),
     ]
 }
@@ -538,7 +564,7 @@ pub fn run(ctx: &mut Ctx) {
     ctx.rule = "histories (1..24 steps) in arbitrary order over SET_MEM_TABLE (table A / table B, same geometry, different files), SET_VRING_NUM \
                 (index 0..=255, sizes around every power of two, 0, random), SET_VRING_BASE, SET_VRING_ADDR (address triples anywhere legal inside \
                 the two regions, or one address just outside; used index pre-written to guest memory), GET_VRING_BASE, SET_FEATURES (subset / \
-                superset / disjoint masks), SET_PROTOCOL_FEATURES+SET_BACKEND_REQ_FD, SET_VRING_CALL new/none, and add_used+signal_used_queue run \
+                superset / disjoint masks), SET_PROTOCOL_FEATURES+SET_BACKEND_REQ_FD, SET_VRING_CALL new/none, SET_VRING_KICK new/none (the ring is started before / between the configuration messages), and add_used+signal_used_queue run \
                 inside the worker; 3 rings; back end direct / Mutex / RwLock wrapped x VringMutex / VringRwLock. Non-trivial = a history that \
                 configures ring >= 1, uses base or used index != 0, a strict-subset feature mask, a new request channel, or add_used after a \
                 table change; distinct histories."
